@@ -204,5 +204,10 @@ theorem c15_denom_change_breaks_import :
     (exportImport Facts.initGenesisOrder dChanged).isOk = false := by
   decide +kernel
 
+/-- the export cap of the model is the source's, in both modules -/
+theorem c15_limits_from_source :
+    AL.find? Facts.limits "wrkchain.MaxBlockSubmissionsKeepInState" = some exportCap ∧
+    AL.find? Facts.limits "beacon.MaxHashSubmissionsToExport" = some exportCap := by decide
+
 end C15
 end Mainchain
